@@ -213,7 +213,11 @@ func vRespControls(max int) ([]ctlSpec, []Control) {
 		if c.kind == ckGeneric || c.kind == ckGenericCritValue {
 			vAssume(c.oid != "")
 		}
-		vAssume(len(c.oid) < vStrBound && len(c.value) < vStrBound && len(c.cookie) < vStrBound)
+		// the bound is on the symbolic strings only (the fixed OIDs of the typed controls are longer)
+		if c.kind == ckGeneric || c.kind == ckGenericCritValue {
+			vAssume(len(c.oid) < vStrBound)
+		}
+		vAssume(len(c.value) < vStrBound && len(c.cookie) < vStrBound)
 		g := gControl(c)
 		c.trueOctet = vLearnTrue(g.Encode())
 		cs = append(cs, c)
